@@ -677,6 +677,8 @@ def _array_contracts(cx, entry, params, lz, xs, method, form, dtype, cutoff, mod
                   allow_reject=allow_reject)
     if st == "rejected" or lz.failed:
         return
+    if st == "violation" and not all(_finite(r) for r in lz.get()):
+        return  # non-finite output is reported once; the numerical contracts are meaningless on it
 
     def each(fn):
         def thunk():
@@ -861,16 +863,20 @@ def truncation(cx):
                         kw["info"] = ia
                     ra = Res(*_split3(qd.array_split(x, **kw)), error=_err_b(ia, 0, 1))
                     rg = Res(*_split3(_generic_call(qd, method, x, form, ecut, emode, emb, rn, ig)), error=_err_b(ig, 0, 1))
-                    return _agree(ra, rg, _up(x), _tols(method, dtype))
+                    tl = _tols(method, dtype)
+                    return _agree(ra, rg, _up(x), tl, _rule_k(_svals(_up(x)), ecut, emode, emb, tl["val"]))
 
                 cx.check("accelerated (numba) and generic implementation of the same split driver agree on rank, kept "
-                         "values, error and product", params, t_rel)
+                         "values, error and product", dict(params, path="api-vs-generic"), t_rel)
 
 
-def _agree(ra, rg, x, tl):
+def _agree(ra, rg, x, tl, interval):
     if ra.eff != rg.eff:
         return f"returned parts differ: {ra.eff} vs {rg.eff}"
     if ra.k != rg.k:
+        lo, hi = interval
+        if lo <= ra.k <= hi and lo <= rg.k <= hi:
+            return None  # a tie of the cutoff rule (values at the threshold within rounding): unconstrained
         return f"kept rank differs: accelerated {ra.k}, generic {rg.k}"
     if not (_finite(ra) and _finite(rg)):
         return "non-finite entries"
